@@ -296,6 +296,7 @@ def worker_env(mod):
     env["OPENBLAS_NUM_THREADS"] = "1"
     env["MKL_NUM_THREADS"] = "1"
     env["PYTHONHASHSEED"] = "0"
+    env["OMP_WAIT_POLICY"] = "passive"  # idle OpenMP threads sleep instead of spinning (many worker processes share the cores)
     env["MALLOC_CHECK_"] = "3"  # glibc: abort on detected heap corruption instead of carrying on
     return env
 
